@@ -39,8 +39,7 @@ theorem contentSize_of (st : Int) (sz : Nat) (h : getContentSize st = .ok sz) (h
 
 /-- the pre-column the header walk builds for a stored column -/
 def preOf (c : Spec.Col) : PreCol :=
-  { serialType := c.st, varintLen := Spec.varintLen (Spec.toU64 c.st), contentSize := c.content.length,
-    hashIsStr := false }
+  { serialType := c.st, varintLen := Spec.varintLen (Spec.toU64 c.st), contentSize := c.content.length }
 
 theorem headerWalk_spec (data : Buf) (e nCols : Nat) (hq : List Nat) :
     ∀ (rest : List Spec.Col) (hp : List Nat) (fuel n : Nat),
@@ -90,7 +89,7 @@ theorem decodeCols_spec (data : Buf) (q : List Nat) :
     ∀ (rest : List Spec.Col) (bp : List Nat) (idx : Nat),
     (∀ c ∈ rest, Spec.ValidCol c) →
     data.toList = bp ++ rest.flatMap (·.content) ++ q →
-    decodeCols data false (rest.map preOf) idx bp.length = .ok (expectedCCols idx bp.length rest) := by
+    decodeCols data (rest.map preOf) idx bp.length = .ok (expectedCCols idx bp.length rest) := by
   intro rest
   induction rest with
   | nil => intro bp idx _ _; rfl
@@ -118,7 +117,7 @@ theorem decodeCols_spec (data : Buf) (q : List Nat) :
     rw [List.length_append] at hnext
     rw [List.map_cons, decodeCols]
     simp only [preOf, hfit, if_false, hcont, liftPy, bind, Except.bind, ne_eq, not_true_eq_false,
-      Bool.false_eq_true, pure, Except.pure]
+      pure, Except.pure]
     rw [hnext]
     simp only [expectedCCols, expectedCCol, hval, Option.getD_some]
 
@@ -205,7 +204,7 @@ theorem recall_record (i : RecIn) (cols : List Spec.Col)
     (hv : ∀ c ∈ cols, Spec.ValidCol c) (hne : cols ≠ []) (hn : cols.length = i.nCols)
     (hwf : i.data.WF) (hsize : i.data.size < 2 ^ 53)
     (hin : IntactAt i.data i.s i.e cols)
-    (hloc : i.loc = .unallocated) (hfc : i.firstCol = none) (hba : i.isBA = false) :
+    (hloc : i.loc = .unallocated) (hfc : i.firstCol = none) :
     ∃ r, carvedRecord i = .ok r ∧ r.cols = expectedCCols 0 i.e cols ∧
       r.truncatedBeginning = false ∧ r.truncatedEnding = false := by
   have _ := hwf
@@ -251,7 +250,7 @@ theorem recall_record (i : RecIn) (cols : List Spec.Col)
   simp only [hcalc, liftPy, bind, Except.bind, hnotfl, if_false, pure, Except.pure,
     reconstructFirst_unalloc i hloc, Option.isSome_none, Bool.false_eq_true, false_and, hfc,
     Option.toList_none, List.length_nil, hwalk, List.nil_append, hlen, ne_eq, not_true_eq_false,
-    sumSizes_pre, hba, hdc, henc1, henc2]
+    sumSizes_pre, hdc, henc1, henc2]
   rw [hcons]
   refine ⟨_, rfl, rfl, rfl, ?_⟩
   simp only [decide_eq_false_iff_not]
@@ -305,11 +304,11 @@ theorem reverseLoop_mem (mk : Nat → Nat → Nat → Py (Option CarvedCell)) :
 
 theorem carveUnallocated_full (sig : CarveSig) (fc : List Int) (simplified : List (List Int)) (pf : Regex.Pat)
     (hc : chosenSignature sig = .ok (fc, simplified)) (hpf : Regex.genSignature simplified false = .ok pf)
-    (ps pn po rs : Nat) (data : Buf) (isBA : Bool)
-    (cells : List CarvedCell) (h : carveUnallocated sig ps pn po rs data isBA = .ok cells) :
+    (ps pn po rs : Nat) (data : Buf)
+    (cells : List CarvedCell) (h : carveUnallocated sig ps pn po rs data = .ok cells) :
     ∃ full part, reverseLoop (fun s e cutoff =>
       tryCarve (po + rs + s) pn 0
-        { loc := .unallocated, data, isBA, s, e, cutoff, nCols := sig.numberOfColumns, sig,
+        { loc := .unallocated, data, s, e, cutoff, nCols := sig.numberOfColumns, sig,
           firstCol := none, fbSize := none, pageSize := ps })
       (Regex.finditer pf data.toList).reverse data.size = .ok full ∧ cells = full ++ part := by
   unfold carveUnallocated at h
@@ -329,7 +328,7 @@ theorem tryCarve_ok (fileOffset pageNumber index : Nat) (i : RecIn) (r : CarvedR
     tryCarve fileOffset pageNumber index i =
       .ok (some { fileOffset, pageNumber, loc := i.loc, index, matchStart := i.s, matchEnd := i.e,
                   cutoff := i.cutoff, rec_ := r,
-                  digest := (pySlice i.data r.cellStart r.cellEnd).toList }) := by
+                  digest := (i.data.slice i.s r.cellEnd).toList }) := by
   unfold tryCarve
   rw [h]
 
@@ -342,14 +341,14 @@ theorem recall_region (sig : CarveSig) (fc : List Int) (simplified : List (List 
     (hv : ∀ c ∈ cols, Spec.ValidCol c) (hne : cols ≠ []) (hn : cols.length = sig.numberOfColumns)
     (hwf : data.WF) (hsize : data.size < 2 ^ 53) (hin : IntactAt data s e cols)
     (hm : (s, e) ∈ Regex.finditer pf data.toList)
-    (cells : List CarvedCell) (h : carveUnallocated sig ps pn po rs data false = .ok cells) :
+    (cells : List CarvedCell) (h : carveUnallocated sig ps pn po rs data = .ok cells) :
     ∃ c ∈ cells, c.matchStart = s ∧ c.matchEnd = e ∧ c.fileOffset = po + rs + s ∧
       c.rec_.cols = expectedCCols 0 e cols := by
-  obtain ⟨full, part, hfull, rfl⟩ := carveUnallocated_full sig fc simplified pf hc hpf ps pn po rs data false cells h
+  obtain ⟨full, part, hfull, rfl⟩ := carveUnallocated_full sig fc simplified pf hc hpf ps pn po rs data cells h
   obtain ⟨co', hco⟩ := reverseLoop_mem _ _ _ _ hfull s e (List.mem_reverse.2 hm)
   obtain ⟨r, hr, hcols, _, _⟩ := recall_record
-    { loc := .unallocated, data, isBA := false, s, e, cutoff := co', nCols := sig.numberOfColumns, sig,
-      firstCol := none, fbSize := none, pageSize := ps } cols hv hne hn hwf hsize hin rfl rfl rfl
+    { loc := .unallocated, data, s, e, cutoff := co', nCols := sig.numberOfColumns, sig,
+      firstCol := none, fbSize := none, pageSize := ps } cols hv hne hn hwf hsize hin rfl rfl
   have ht := tryCarve_ok (po + rs + s) pn 0 _ r hr
   rw [ht] at hco
   rcases hco with hco | ⟨c, hc1, hc2⟩
@@ -898,7 +897,7 @@ theorem first_column_from_size (fc : List Int) (st : Int) (fbSize sdSize sdcs sz
     (hsize : fbSize = 2 + (1 + sdSize + 1) + sdcs + sz)
     (huniq : ∀ t ∈ fc, t ≠ st → getContentSize t ≠ .ok sz) :
     fromFreeblockSize fc fbSize sdSize sdcs =
-      .ok (some { serialType := st, varintLen := 1, contentSize := sz, hashIsStr := true, truncatedFirst := true }) := by
+      .ok (some { serialType := st, varintLen := 1, contentSize := sz, truncatedFirst := true }) := by
   unfold fromFreeblockSize
   have hx : ((fbSize : Int) - 2 - (1 + (sdSize : Int) + 1) - (sdcs : Int)) = (sz : Int) := by omega
   simp only [hx]
@@ -911,7 +910,7 @@ could be reconstructed, the fall-back picks that serial type -/
 theorem first_column_single (sig : CarveSig) (st : Int) (sz : Nat) (h0 : 0 ≤ st ∧ st ≤ 9)
     (htot : sig.totalRecords ≠ 0) (hsz : getContentSize st = .ok sz) (hsmall : sz < 2 ^ 53) :
     probabilisticFirst sig [st] =
-      .ok { serialType := st, varintLen := 1, contentSize := sz, hashIsStr := true, truncatedFirst := true,
+      .ok { serialType := st, varintLen := 1, contentSize := sz, truncatedFirst := true,
             probabilisticFirst := true } := by
   unfold probabilisticFirst
   have h2 : ¬ st = -2 := by omega
@@ -940,86 +939,108 @@ theorem dedup_counterexample : ¬ DedupKeepsAll := by
   revert this
   decide
 
-/-! ### a digest collision produced by the carver itself -/
+theorem dedup_fold_distinct : ∀ (cells : List CarvedCell) (d : List (List Nat × CarvedCell)),
+    (cells.map (·.digest)).Nodup → (∀ c ∈ cells, ∀ e ∈ d, e.1 ≠ c.digest) →
+    cells.foldl (fun d c => if d.any (·.1 = c.digest) then d.map (fun e => if e.1 = c.digest then (c.digest, c) else e)
+                else d ++ [(c.digest, c)]) d = d ++ cells.map (fun c => (c.digest, c)) := by
+  intro cells
+  induction cells with
+  | nil => intro d _ _; simp
+  | cons c rest ih =>
+    intro d hnd hdis
+    rw [List.map_cons, List.nodup_cons] at hnd
+    have hno : d.any (·.1 = c.digest) = false := by
+      rw [List.any_eq_false]
+      intro e he
+      simpa using hdis c (List.mem_cons_self ..) e he
+    rw [List.foldl_cons, hno]
+    simp only [Bool.false_eq_true, if_false]
+    rw [ih _ hnd.2]
+    · simp
+    · intro c' hc' e he
+      rcases List.mem_append.1 he with he | he
+      · exact hdis c' (List.mem_cons_of_mem _ hc') e he
+      · simp only [List.mem_singleton] at he
+        subst he
+        intro heq
+        exact hnd.1 (by simp only at heq; rw [heq]; exact List.mem_map.2 ⟨c', hc', rfl⟩)
+
+/-- what does hold: cells with pairwise distinct digests are all kept -/
+theorem dedup_keeps_distinct (cells : List CarvedCell) (h : (cells.map (·.digest)).Nodup) :
+    (dedup [] cells).length = cells.length ∧ (dedup [] cells).map (·.2.digest) = cells.map (·.digest) := by
+  have hf : (cells.filter fun c => ¬ ([] : List (List Nat)).contains c.digest) = cells := by
+    apply List.filter_eq_self.2
+    intro c _
+    simp
+  unfold dedup
+  rw [hf, dedup_fold_distinct cells [] h (by intro _ _ e he; cases he)]
+  simp [Function.comp_def]
+
+/-! ### the carver's digests after the repair -/
 
 /-- columns (one-byte integer, four-byte integer) -/
 def sig14 : CarveSig := ⟨2, 5, [[1], [4]], [], [[(1, 5, 5)], [(4, 5, 5)]]⟩
 /-- two freeblocks of one page, each exactly one freed cell (10 bytes: 4-byte freeblock header + content
-`04 | a | b1 b2 b3 b4`), rows (7, 0x01020304) and (9, 0x01020304) -/
-def fbA : FbIn := ⟨2, 0, 200, 10, Buf.ofList [4, 7, 1, 2, 3, 4], false, 1024⟩
-def fbB : FbIn := ⟨2, 1, 300, 10, Buf.ofList [4, 9, 1, 2, 3, 4], false, 1024⟩
-/-- the same rows with the four-byte integer 0x01020305: no content byte equals the serial type `04`, so
-the partial pattern `\x04` matches only the stored serial type -/
-def fbA5 : FbIn := ⟨2, 0, 200, 10, Buf.ofList [4, 7, 1, 2, 3, 5], false, 1024⟩
-def fbB5 : FbIn := ⟨2, 1, 300, 10, Buf.ofList [4, 9, 1, 2, 3, 5], false, 1024⟩
+`04 | a | b1 b2 b3 b4`), rows (7, 0x01020305) and (9, 0x01020305): no content byte equals the serial
+type `04`, so the partial pattern `\x04` matches only the stored serial type -/
+def fbA5 : FbIn := ⟨2, 0, 200, 204, 10, Buf.ofList [4, 7, 1, 2, 3, 5], 1024⟩
+def fbB5 : FbIn := ⟨2, 1, 300, 304, 10, Buf.ofList [4, 9, 1, 2, 3, 5], 1024⟩
 
-def collisionChk (v : Int) : Py (List CarvedCell) → Bool
+def separatesChk : Py (List CarvedCell) → Bool
   | .ok [a, b] =>
-    decide (a.rec_.cols.map (·.value) = [.dec (.int 7), .dec (.int v)]) &&
-    decide (b.rec_.cols.map (·.value) = [.dec (.int 9), .dec (.int v)]) &&
-    decide (a.digest = b.digest) && decide ((dedup [] [a, b]).length = 1)
+    decide (a.rec_.cols.map (·.value) = [.dec (.int 7), .dec (.int 16909061)]) &&
+    decide (b.rec_.cols.map (·.value) = [.dec (.int 9), .dec (.int 16909061)]) &&
+    decide (a.digest ≠ b.digest) && decide ((dedup [] [a, b]).length = 2)
   | _ => false
 
-theorem collisionChk_true : collisionChk 16909061 (carveFreeblocks sig14 1024 [fbA5, fbB5]) = true := by
+theorem separatesChk_true : separatesChk (carveFreeblocks sig14 1024 [fbA5, fbB5]) = true := by
   decide +kernel
 
-/-- two deleted rows with different values are both carved, get the same digest (the md5 input is
-`data[-4:end]`, the last four content bytes) and the iterator's de-duplication keeps only one -/
-theorem digest_collision_drops_a_row' :
+/-- the witness of the former collision defect: the two rows now get different digests and both survive -/
+theorem digest_separates_rows :
     ∃ a b, carveFreeblocks sig14 1024 [fbA5, fbB5] = .ok [a, b] ∧
       a.rec_.cols.map (·.value) = [.dec (.int 7), .dec (.int 16909061)] ∧
       b.rec_.cols.map (·.value) = [.dec (.int 9), .dec (.int 16909061)] ∧
-      a.digest = b.digest ∧ (dedup [] [a, b]).length = 1 := by
-  have h := collisionChk_true
+      a.digest ≠ b.digest ∧ (dedup [] [a, b]).length = 2 := by
+  have h := separatesChk_true
   generalize carveFreeblocks sig14 1024 [fbA5, fbB5] = res at h
-  unfold collisionChk at h
+  unfold separatesChk at h
   split at h
   · rename_i a b
     simp only [Bool.and_eq_true, decide_eq_true_eq] at h
     exact ⟨a, b, rfl, h.1.1.1, h.1.1.2, h.1.2, h.2⟩
   · cases h
 
-def collisionChk4 : Py (List CarvedCell) → Bool
-  | .ok [a', a, b', b] =>
-    decide (a.rec_.cols.map (·.value) = [.dec (.int 7), .dec (.int 16909060)]) &&
-    decide (b.rec_.cols.map (·.value) = [.dec (.int 9), .dec (.int 16909060)]) &&
-    decide (a'.rec_.cols.map (·.value) = [.unset, .unset]) &&
-    decide (b'.rec_.cols.map (·.value) = [.unset, .unset]) &&
-    decide (a'.matchStart = 5) && decide (b'.matchStart = 5) &&
-    decide (a.matchStart = 0) && decide (b.matchStart = 0) &&
-    decide (a.digest = b.digest) && decide ((dedup [] [a', a, b', b]).length = 3)
+/-- what is still lost (single-column tables): the empty partial pattern matches at the start of the
+full match, the fall-back guesses a two-byte integer, the bogus candidate covers exactly the real
+record's bytes `01 09` and shares its digest; de-duplication keeps one cell for the two -/
+def sig12 : CarveSig := ⟨1, 5, [[1, 2]], [], [[(1, 1, 5), (2, 4, 5)]]⟩
+
+def bogusChk : Py (List CarvedCell) → Bool
+  | .ok [a, x, y, b] =>
+    decide (a.matchStart = 0) && decide (a.matchEnd = 1) &&
+    decide (a.rec_.cols.map (·.value) = [.dec (.int 9)]) &&
+    decide (b.matchStart = 0) && decide (b.matchEnd = 0) &&
+    decide (b.rec_.cols.map (·.value) = [.dec (.int 265)]) &&
+    decide (a.digest = b.digest) && decide ((dedup [] [a, x, y, b]).length = 3)
   | _ => false
 
-theorem collisionChk4_true : collisionChk4 (carveFreeblocks sig14 1024 [fbA, fbB]) = true := by
+theorem bogusChk_true : bogusChk (carveUnallocated sig12 1024 2 1024 100 (Buf.ofList [1, 9])) = true := by
   decide +kernel
 
-/-- with the value 0x01020304 the last content byte `04` is a second match of the partial pattern: every
-freeblock yields two cells (the spurious one at offset 5 first, with no values); the two real rows
-still collide and one of them is dropped -/
-theorem digest_collision_drops_a_row_partial :
-    ∃ a' a b' b, carveFreeblocks sig14 1024 [fbA, fbB] = .ok [a', a, b', b] ∧
-      a.matchStart = 0 ∧ b.matchStart = 0 ∧ a'.matchStart = 5 ∧ b'.matchStart = 5 ∧
-      a'.rec_.cols.map (·.value) = [.unset, .unset] ∧ b'.rec_.cols.map (·.value) = [.unset, .unset] ∧
-      a.rec_.cols.map (·.value) = [.dec (.int 7), .dec (.int 16909060)] ∧
-      b.rec_.cols.map (·.value) = [.dec (.int 9), .dec (.int 16909060)] ∧
-      a.digest = b.digest ∧ (dedup [] [a', a, b', b]).length = 3 := by
-  have h := collisionChk4_true
-  generalize carveFreeblocks sig14 1024 [fbA, fbB] = res at h
-  unfold collisionChk4 at h
+theorem single_column_bogus_collision :
+    ∃ a x y b, carveUnallocated sig12 1024 2 1024 100 (Buf.ofList [1, 9]) = .ok [a, x, y, b] ∧
+      a.matchStart = 0 ∧ a.matchEnd = 1 ∧ a.rec_.cols.map (·.value) = [.dec (.int 9)] ∧
+      b.matchStart = 0 ∧ b.matchEnd = 0 ∧ b.rec_.cols.map (·.value) = [.dec (.int 265)] ∧
+      a.digest = b.digest ∧ (dedup [] [a, x, y, b]).length = 3 := by
+  have h := bogusChk_true
+  generalize carveUnallocated sig12 1024 2 1024 100 (Buf.ofList [1, 9]) = res at h
+  unfold bogusChk at h
   split at h
-  · rename_i a' a b' b
+  · rename_i a x y b
     simp only [Bool.and_eq_true, decide_eq_true_eq] at h
-    obtain ⟨⟨⟨⟨⟨⟨⟨⟨⟨h1, h2⟩, h3⟩, h4⟩, h5⟩, h6⟩, h7⟩, h8⟩, h9⟩, h10⟩ := h
-    exact ⟨a', a, b', b, rfl, h7, h8, h5, h6, h3, h4, h1, h2, h9, h10⟩
+    obtain ⟨⟨⟨⟨⟨⟨⟨h1, h2⟩, h3⟩, h4⟩, h5⟩, h6⟩, h7⟩, h8⟩ := h
+    exact ⟨a, x, y, b, rfl, h1, h2, h3, h4, h5, h6, h7, h8⟩
   · cases h
-
-/-- the requested two-cell form is false for `fbA`, `fbB` -/
-theorem digest_collision_two_cells_false :
-    ¬ ∃ a b, carveFreeblocks sig14 1024 [fbA, fbB] = .ok [a, b] := by
-  obtain ⟨a', a, b', b, h, _⟩ := digest_collision_drops_a_row_partial
-  rintro ⟨x, y, hxy⟩
-  rw [h] at hxy
-  simp only [Except.ok.injEq, List.cons.injEq] at hxy
-  exact absurd hxy.2.2 (by simp)
 
 end SqliteDissect.Proofs.CarveRecall
